@@ -155,7 +155,7 @@ func sweep(rep *Report, prop *Prop, tier string) {
 	}
 	base := rep.signature()
 	vars := genVariants(rep.prog, rep.Functions)
-	max := 800
+	max := 300
 	if v := os.Getenv("SIOT_SWEEP_MAX"); v != "" {
 		fmt.Sscanf(v, "%d", &max)
 	}
